@@ -141,6 +141,14 @@ def check_distance_matcher(ctx, rules=("PATHCOUNT", "TIME", "INDEX", "GREEDY", "
     cd = cd[0]
     st = si.statement(cd)
     D = st.targets[0].id if isinstance(st, ast.Assign) and isinstance(st.targets[0], ast.Name) else None
+    from ..astutil import aliases as _aliases, canon_guards, canon_want
+
+    Ds = _aliases(fv, D) if D else set()
+    if D and len(Ds) > 1:
+        # the matrix as the matching loop names it (a helper's local was copied into it)
+        used = [n.id for n in ast.walk(fi.node) if isinstance(n, ast.Name) and n.id in Ds and n.id != D]
+        if used:
+            D = max(set(used), key=used.count)
     rows, cols = [], []
     for a, acc in ((cd.args[0], rows), (cd.args[1], cols)):
         ex = fv.expand(a, cd)
@@ -233,8 +241,8 @@ def check_distance_matcher(ctx, rules=("PATHCOUNT", "TIME", "INDEX", "GREEDY", "
                 ok = isinstance(it, ast.Call) and dotted(it.func) == "enumerate" and len(it.args) == 1 and U(it.args[0]) == em_p and isinstance(lp.target, ast.Tuple) and len(lp.target.elts) == 2
                 if ok:
                     iv, dvn = U(lp.target.elts[0]), U(lp.target.elts[1])
-                    g = [(U(t_), p) for t_, p in si.guards(c) if any(x is t_ for x in ast.walk(lp))]
-                    ok = U(d) == dvn and g == [(f"{iv} not in {setname}", True)]
+                    g = canon_guards(si, c, within=lp)
+                    ok = U(d) == dvn and g == canon_want((f"{iv} not in {setname}", True))
                     # loop not nested in the guard on alive tracks
                     outer_guards = [(U(t_), p) for t_, p in si.guards(lp)]
                     ok = ok and not outer_guards
@@ -251,13 +259,13 @@ def check_distance_matcher(ctx, rules=("PATHCOUNT", "TIME", "INDEX", "GREEDY", "
     if "CUTOFF" in rules:
         cut = None
         for s in fv.statements():
-            if isinstance(s, ast.Assign) and isinstance(s.targets[0], ast.Subscript) and U(s.targets[0].value) == D and U(s.value) in ("np.inf", "math.inf") \
-                    and isinstance(fv.expand(s.targets[0].slice, s, stop=(D,), allow_mutated=True), ast.Compare):
+            if isinstance(s, ast.Assign) and isinstance(s.targets[0], ast.Subscript) and U(s.targets[0].value) in Ds and U(s.value) in ("np.inf", "math.inf") \
+                    and isinstance(fv.expand(s.targets[0].slice, s, stop=tuple(Ds), allow_mutated=True), ast.Compare):
                 cut = s
         ok = False
         if cut is not None:
-            cp = compare_parts(fv.expand(cut.targets[0].slice, cut, stop=(D,), allow_mutated=True))
-            ok = cp is not None and U(cp[0]) == D and isinstance(cp[1], ast.Gt) and U(cp[2]) == "max_dist" and U(cut.value) in ("np.inf", "math.inf")
+            cp = compare_parts(fv.expand(cut.targets[0].slice, cut, stop=tuple(Ds), allow_mutated=True))
+            ok = cp is not None and U(cp[0]) in Ds and isinstance(cp[1], ast.Gt) and U(cp[2]) == "max_dist" and U(cut.value) in ("np.inf", "math.inf")
             wl = [s for s in fv.statements() if isinstance(s, ast.While)]
             ok = ok and bool(wl) and fv.dominates(cut, wl[0]) and fv.dominates(st, cut)
         ctx.decide(ok, "CUTOFF", site, (fi, cut) if cut is not None else fi,
